@@ -44,14 +44,18 @@ class World(object):
         self.store = SimStore()
         self.tempdir = tempdir
         self.args = []
+        self.arg_snaps = []
         self.keep = []      # objects that must stay alive (db connections)
         self.aux = None     # nested view the recipe wraps (counts as a
         #                     sibling view in C01 schedules)
         self._ndb = 0
 
     def arg(self, obj):
-        """Register a mutable argument passed to petl."""
+        """Register a mutable argument passed to petl (its state is recorded
+        before petl sees it: a constructor may already touch it)."""
+        from .canon import snapshot
         self.args.append(obj)
+        self.arg_snaps.append(snapshot(obj))
         return obj
 
     def close(self):
@@ -1078,7 +1082,10 @@ V('rename', lambda e, w: e.rename(w.s[0], 0, 'first'),
   lambda e, w: e.rename(w.s[0], {0: 'first', 'b': 'second'}))
 V('setheader', lambda e, w: e.setheader(w.s[0], ['only']),
   lambda e, w: e.setheader(w.s[0], ['p', 'q', 'r', 's', 't', 'u', 'v']))
-V('pushheader', lambda e, w: e.pushheader(w.s[0], ['only']))
+V('pushheader', lambda e, w: e.pushheader(w.s[0], ['only']),
+  # (a list header AND further names: the names are documented as ignored)
+  lambda e, w: e.pushheader(w.s[0], w.arg(['p', 'q', 'r', 's', 't']), 'u'),
+  lambda e, w: e.pushheader(w.s[0], w.arg(('p', 'q', 'r', 's', 't'))))
 V('skip', lambda e, w: e.skip(w.s[0], 0))
 V('sortheader', lambda e, w: e.sortheader(w.s[0]))
 V('convert',
@@ -1110,6 +1117,9 @@ V('melt', lambda e, w: e.melt(w.s[0], 'a', variablefield='var',
   lambda e, w: e.melt(w.s[0], variables=['b', 'c']),
   lambda e, w: e.melt(w.s[0], key=['a', 'b', 'c']))
 V('recast',
+  # (the dict form of variablefield, names not in sorted order)
+  lambda e, w: e.recast(e.melt(w.s[0], 'a', variables=['b', 'c']),
+                        variablefield=w.arg({'variable': ['c', 'b']})),
   lambda e, w: e.recast(e.melt(w.s[0], ['a', 'b'], variables=['c']),
                         key='a'),
   lambda e, w: e.recast(e.melt(w.s[0], 'a', variables=['b', 'c']),
